@@ -408,8 +408,13 @@ def lens_for_tier(tier):
     return (list(range(0, MAXLEN + 1)) if tier == 'thorough' else QUICK_LENS) + ['tail']
 
 
-def run_all(facts_by_config, jobs=None, only=None, lens=None):
-    """{(config, pub_path): result}"""
+BASE_CONFIGS = ('x64', 'a64', 'x86')
+CFG_CRATES = ('aes', 'kuznyechik', 'serpent')     # the crates whose code depends on a cfg flag
+
+
+def run_all(facts_by_config, jobs=None, only=None, lens=None, cfg_filter=False):
+    """{(config, pub_path): result}.  cfg_filter: in a configuration that differs from a base configuration only by cfg
+    flags, analyse only the crates whose code depends on a cfg flag (the others are identical code, C03 F)"""
     import multiprocessing as mp
     lens_all = lens or (list(range(0, MAXLEN + 1)) + ['tail'])
     quick = len(lens_all) < MAXLEN
@@ -419,6 +424,8 @@ def run_all(facts_by_config, jobs=None, only=None, lens=None):
     for cfgname, F in facts_by_config.items():
         for t in F.roots_info['types']:
             if only and t['pub_path'] not in only:
+                continue
+            if cfg_filter and cfgname not in BASE_CONFIGS and t['crate'] not in CFG_CRATES:
                 continue
             types.append((cfgname, F.dir, t['pub_path'], 'crypto_common::KeyInit' in t['traits'], ltag))
             if 'crypto_common::KeyInit' not in t['traits']:
